@@ -248,7 +248,58 @@ func (e *env) barOptions(i int) (mpb.BarFiller, []mpb.BarOption) {
 	if bs.QueueAfter >= 0 && e.bars[bs.QueueAfter] != nil {
 		opts = append(opts, mpb.BarQueueAfter(e.bars[bs.QueueAfter]))
 	}
+	if bs.QueueAfter == -2 {
+		opts = append(opts, mpb.BarQueueAfter(nil)) // "no predecessor after all"
+	}
+	if bs.OptVariant != 0 {
+		opts = optionalVariants(bs, opts)
+	}
 	return filler, opts
+}
+
+// optionalVariants passes every option through one of the conditional wrappers (condition true)
+// and mixes in nil options and wrapped options whose condition is false (they must have no effect).
+func optionalVariants(bs *BarSpec, opts []mpb.BarOption) []mpb.BarOption {
+	yes := func() bool { return true }
+	no := func() bool { return false }
+	v := bs.OptVariant
+	var out []mpb.BarOption
+	for j, o := range opts {
+		o := o
+		switch (v + j) % 5 {
+		case 0:
+			out = append(out, mpb.BarOptional(o, true))
+		case 1:
+			out = append(out, mpb.BarOptOn(o, yes))
+		case 2:
+			out = append(out, mpb.BarFuncOptional(func() mpb.BarOption { return o }, true))
+		case 3:
+			out = append(out, mpb.BarFuncOptOn(func() mpb.BarOption { return o }, yes))
+		default:
+			out = append(out, o)
+		}
+		switch (v/5 + j) % 6 {
+		case 0:
+			out = append(out, nil)
+		case 1:
+			if !bs.RmOnComp {
+				out = append(out, mpb.BarOptional(mpb.BarRemoveOnComplete(), false))
+			}
+		case 2:
+			if !bs.NoPop {
+				out = append(out, mpb.BarOptOn(mpb.BarNoPop(), no))
+			}
+		case 3:
+			if !bs.HasPrio {
+				out = append(out, mpb.BarFuncOptional(func() mpb.BarOption { return mpb.BarPriority(-999) }, false))
+			}
+		case 4:
+			if bs.Width == 0 {
+				out = append(out, mpb.BarFuncOptOn(func() mpb.BarOption { return mpb.BarWidth(3) }, no))
+			}
+		}
+	}
+	return out
 }
 
 func b2i(b bool) int64 {
